@@ -169,15 +169,25 @@ def padTo (N : Nat) (r : List Rat) : List Rat := r ++ List.replicate (N - r.leng
 def nonnegRow (x : AffE) (dummy : Nat) : CRow :=
   if x.co.isEmpty then ⟨[(dummy, 0)], x.off, false⟩ else ⟨x.co, x.off, false⟩
 
-/-- `_age_vectors_sum_to_c` via `columns_sum_leq_vec(mat_offsets=True)` -/
-def sumToC (m : Nat) (c : List AffE) (ages : List (List AffE)) (forceEq : Bool) (dummy : Nat) : List CRow × List Cone :=
-  let rows := (List.range m).map fun j =>
+/-- indices some AGE vector can reach: `i ∈ U_I` itself and every member of a cover -/
+def reachedB (e : Ech) (j : Nat) : Bool :=
+  e.U.contains j || e.covers.any fun p => p.2.getD j false
+
+/-- `_age_vectors_sum_to_c` via `columns_sum_leq_vec(mat_offsets=True)`: `Σ_i age_i ≤ c`; with `sum_age_force_equality` equality is demanded at the reached
+    indices (listed first), the other rows stay inequalities -/
+def sumToC (m : Nat) (c : List AffE) (ages : List (List AffE)) (forceEq : Bool) (dummy : Nat) (e : Ech) :
+    List CRow × List Cone :=
+  let row := fun (j : Nat) =>
     let svs := ages.flatMap fun a => (a.getD j (constE 0)).co.map (·.1)
     let offs := (ages.map fun a => (a.getD j (constE 0)).off).foldl (· + ·) 0
     let cj := c.getD j (constE 0)
     let ents := svs.map (fun id => (id, (-1 : Rat))) ++ cj.co
     (⟨if ents.isEmpty then [(dummy, 0)] else ents, cj.off - offs, false⟩ : CRow)
-  (rows, [⟨if forceEq then .zero else .pos, m⟩])
+  if forceEq then
+    let reached := (List.range m).filter (reachedB e)
+    let rest := (List.range m).filter fun j => !reachedB e j
+    ((reached ++ rest).map row, [⟨.zero, reached.length⟩] ++ if rest.isEmpty then [] else [⟨.pos, rest.length⟩])
+  else ((List.range m).map row, [⟨.pos, m⟩])
 
 structure PrimalIn where
   n : Nat
@@ -229,7 +239,7 @@ def primalRows (inp : PrimalIn) : M (List CRow × List Cone) := do
               0, false⟩ : CRow)
           let (r3, k3) ← conRows inp.dummy (.dual (p.eta.map fun id => ⟨[(.var id, 1)], 0⟩) X.K)
           pure (r1 ++ eqRows ++ r3, k1 ++ [⟨.zero, N⟩] ++ k3)
-    let (rs, ks) := sumToC m inp.c ages inp.settings.sumAgeForceEquality inp.dummy
+    let (rs, ks) := sumToC m inp.c ages inp.settings.sumAgeForceEquality inp.dummy inp.ech
     pure (perI.flatMap (·.1) ++ rs, perI.flatMap (·.2) ++ ks)
 
 /-! ### dual cone -/
